@@ -161,6 +161,8 @@ class Check:
             "wall_s": round(time.time() - self.t0, 3),
             "violations": n_new,
         }
+        if os.environ.get("QV_NO_EVIDENCE"):
+            return
         os.makedirs(os.path.join(VERIF, "evidence"), exist_ok=True)
         with open(os.path.join(VERIF, "evidence", f"{self.pid}.json"), "w") as f:
             json.dump(ev, f, indent=1, default=str)
@@ -174,6 +176,8 @@ def load_known() -> list:
 
 
 def write_replay(pid: str, f: Finding, tier: str) -> str:
+    if os.environ.get("QV_NO_EVIDENCE"):
+        return "(self-test: no replay file)"
     os.makedirs(os.path.join(VERIF, "replay"), exist_ok=True)
     h = hashlib.sha256(repr(f.key(pid)).encode()).hexdigest()[:10]
     path = os.path.join(VERIF, "replay", f"{pid}-{f.rule}-{h}.json")
